@@ -529,7 +529,8 @@ fn p18_check_stop_exact() {
     assert!(r == Ok(want));
     assert!(tp.stopped() == want);
     if want {
-        assert!(tp.stop_reason == if eos_committed { StopReason::EndOfSentence } else { StopReason::NoExtension });
+        let vc_8 = tp.stop_reason == if eos_committed { StopReason::EndOfSentence } else { StopReason::NoExtension };
+        assert!(vc_8);
         assert!(tp.stop_reason.is_ok());
     }
     kani::cover!(want && eos_committed);
@@ -665,7 +666,8 @@ fn p18_budget() {
     kani::assume((t as usize) < V);
     let r = tp.consume_token(t);
     if b0 == 0 {
-        assert!(r.is_err() && tp.stop_reason == StopReason::MaxTokensTotal && tp.parser.apply_calls == 0);
+        let vc_9 = r.is_err() && tp.stop_reason == StopReason::MaxTokensTotal && tp.parser.apply_calls == 0;
+        assert!(vc_9);
     } else {
         assert!(tp.max_tokens_total == b0 - 1);
     }
